@@ -1,11 +1,85 @@
 import HickoryVerif.Drv.Proto
+import HickoryVerif.Model.UdpMatch
 
+/-!
+Line protocol of C16.
+
+UDP (stateless, one line per query):
+`udp <timeout> <retry_interval> <retry_floor> <max_retries> <server> <id> <case01> <questions> { | <event>* }*`
+* addr      `4:<ip as decimal>:<port>` / `6:<ip as decimal>:<port>`
+* questions `-` or `name/type/class,…` (name token of Drv/Proto)
+* event     `D;<delay>;<src addr>;<parses01>;<response01>;<id>;<questions>;<- or =rawhex>` or `E;<delay>`
+answer: `ok <transmission>.<event index> c=<consumed per started transmission>` / `err c=…` / `timeout c=…`
+-/
 namespace HickoryVerif.Drv.C16
-open HickoryVerif HickoryVerif.Drv
+open HickoryVerif HickoryVerif.Drv HickoryVerif.UdpMatch
+
+def parseBool (s : String) : Option Bool :=
+  if s == "1" then some true else if s == "0" then some false else none
+
+def parseAddr (s : String) : Option Addr :=
+  match s.splitOn ":" with
+  | ["4", a, p] => do
+    let a ← a.toNat?; let p ← p.toNat?
+    pure { ip := .v4 a, port := p }
+  | ["6", a, p] => do
+    let a ← a.toNat?; let p ← p.toNat?
+    pure { ip := .v6 a, port := p }
+  | _ => none
+
+def parseQuestion (s : String) : Option Question :=
+  match s.splitOn "/" with
+  | [n, t, c] => do
+    let n ← parseName n; let t ← t.toNat?; let c ← c.toNat?
+    pure { name := n, qtype := t, qclass := c }
+  | _ => none
+
+def parseQuestions (s : String) : Option (List Question) :=
+  if s == "-" then some [] else (s.splitOn ",").mapM parseQuestion
+
+def parseEvent (s : String) : Option Timed :=
+  match s.splitOn ";" with
+  | ["E", d] => do
+    let d ← d.toNat?
+    pure (d, .ioErr)
+  | ["D", d, a, p, r, i, q, _raw] => do
+    let d ← d.toNat?; let a ← parseAddr a; let p ← parseBool p; let r ← parseBool r
+    let i ← i.toNat?; let q ← parseQuestions q
+    pure (d, .dgram { src := a, parses := p, isResponse := r, id := i, questions := q })
+  | _ => none
+
+/-- split the token list at `|` -/
+def splitBar : List String → List (List String)
+  | [] => [[]]
+  | t :: ts =>
+    match splitBar ts with
+    | [] => [[t]]
+    | g :: gs => if t == "|" then [] :: g :: gs else (t :: g) :: gs
+
+def showConsumed (l : List Nat) : String := "c=" ++ ",".intercalate (l.map toString)
+
+def showQuery : QueryOutcome → String
+  | .ok t i => s!"ok {t}.{i}"
+  | .err => "err"
+  | .timeout => "timeout"
+
+def handleUdp (toks : List String) : Option String :=
+  match splitBar toks with
+  | [timeout, interval, floor, maxr, server, id, cr, qs] :: scripts => do
+    let timeout ← timeout.toNat?; let interval ← interval.toNat?; let floor ← floor.toNat?; let maxr ← maxr.toNat?
+    let server ← parseAddr server; let id ← id.toNat?; let cr ← parseBool cr; let qs ← parseQuestions qs
+    let c : Config := { timeout := timeout, interval := retryInterval interval floor, maxRetries := maxr }
+    let rq : Request := { server := server, id := id, caseRand := cr, questions := qs }
+    let ss ← scripts.mapM fun s => s.mapM parseEvent
+    pure (showQuery (query c rq ss) ++ " " ++ showConsumed (consumedList c rq ss))
+  | _ => none
 
 abbrev State := Unit
 def init : State := ()
 
-def step (s : State) (_toks : List String) : State × String := (s, "bad-op")
+def step (s : State) (toks : List String) : State × String :=
+  match toks with
+  | "udp" :: rest => (s, (handleUdp rest).getD "bad-op")
+  | _ => (s, "bad-op")
 
 end HickoryVerif.Drv.C16
